@@ -25,7 +25,7 @@ use std::sync::atomic::{AtomicBool, Ordering};
 use std::time::Duration;
 use tokio::sync::Notify;
 
-const REQUEST_TIMEOUT: Duration = Duration::from_millis(300);
+const REQUEST_TIMEOUT: Duration = Duration::from_millis(1500);
 /// generous wall-clock bound (30x anything observed); exceeding it is reported as a stall
 const SLACK: Duration = Duration::from_secs(10);
 
@@ -846,7 +846,7 @@ fn main() {
 		 the front-end channel was closed until a late caller started}. The directed part enumerates every (fault, schedule) pair 6 \
 		 times; the rest is seeded. Non-trivial = at least one operation outcome was judged; distinct by all case parameters.",
 	);
-	ev.assume("mode R (real clock): request_timeout = 300 ms; an operation still pending after 300 ms + 10 s is a stall (30x any observed completion time); no other verdict depends on wall-clock time");
+	ev.assume("mode R (real clock): request_timeout = 1.5 s (no history waits for it; it only bounds how long a lost call can hang); an operation still pending after 1.5 s + 10 s is a stall; no other verdict depends on wall-clock time");
 	ev.assume("expected cause text: the injected error text (nonce) for send/receive errors, 'peer closed' for a peer close, 'Unparseable message' for non-JSON text, the offending id for an unknown-id response; for hostile batch replies only: not the placeholder, consistent, no panic, no stall");
 	ev.assume("generated bytes may be ignorable: then the client must stay connected and complete everything normally");
 	ev.assume("real-transport family: the real jsonrpsee WebSocket transport over an in-memory duplex against a raw soketto server (close frame, abrupt drop, binary garbage, non-JSON text, unknown id, frame above the client's max_response_size); cause texts are transport-specific, so only: RestartNeeded, non-empty, consistent, not the placeholder, no timeout / stall / panic");
